@@ -382,7 +382,7 @@ impl Monitor for C09 {
          5-40 steps of new_node / new_edge / unify / interface growth / quotient with a shadow model in lock-step. All public fields are snapshotted before and after \
          every quotient() on lax::OpenHypergraph and lax::Hypergraph. Oracle: naive flood-fill components of the pair list; Ok iff every class is label-uniform; on Ok \
          the returned map has exactly those fibres, is onto, and every field equals the old diagram pushed through it with the pending list cleared; a second call \
-         changes nothing; on Err every field equals the snapshot. non-trivial = >=1 pair joining two different nodes, or a history; distinct = hash of diagram / step log."
+         changes nothing; on Err every field equals the snapshot. non-trivial = >=1 pair joining two different nodes, or a history; distinct = hash of diagram / step log. Also: the read-only coequalizer() of a bare lax hypergraph (same partition, diagram untouched) and the lengths of all public vectors on the failure path."
     }
     fn corpus_len(&self) -> u64 {
         corpus().len() as u64
